@@ -97,3 +97,133 @@ def render_scene(sc, dyadic=False):
     if dyadic:
         img = np.round(img * 64) / 64
     return img
+
+
+# --------------------------------------------------------------------------
+# compact image specifications (structural parameters shrink; bulk values
+# come from a seeded PRNG stored in the case)
+
+@st.composite
+def image_spec(draw, lo=1, hi=40, nonfinite=True, integer_valued=None,
+               positive=False):
+    ny = draw(st.integers(lo, hi))
+    nx = draw(st.integers(lo, hi))
+    kind = draw(st.sampled_from(['int', 'normal', 'huge', 'const']))
+    if integer_valued is True:
+        kind = 'int'
+    spec = {'ny': ny, 'nx': nx, 'kind': kind,
+            'seed': draw(st.integers(0, 2**31 - 1)), 'special': []}
+    if positive:
+        spec['positive'] = True
+    if nonfinite and draw(st.floats(0, 1)) < 0.35:
+        n = draw(st.integers(1, 4))
+        for _ in range(n):
+            spec['special'].append([draw(st.integers(0, ny - 1)),
+                                    draw(st.integers(0, nx - 1)),
+                                    draw(st.sampled_from([NAN, INF, -INF,
+                                                          1e300, -1e300]))])
+    return spec
+
+
+def build_image(spec):
+    rng = np.random.default_rng(spec['seed'])
+    shape = (spec['ny'], spec['nx'])
+    k = spec['kind']
+    if k == 'int':
+        img = rng.integers(-20, 100, size=shape).astype(float)
+    elif k == 'normal':
+        img = rng.normal(10.0, 5.0, size=shape)
+    elif k == 'huge':
+        img = rng.normal(0.0, 1.0, size=shape) * 1e12
+    else:
+        img = np.full(shape, float(rng.integers(-5, 50)))
+    if spec.get('positive'):
+        img = np.abs(img)
+    for (i, j, v) in spec.get('special', []):
+        img[i, j] = v
+    return img
+
+
+@st.composite
+def mask_spec(draw, ny, nx):
+    kind = draw(st.sampled_from(['none', 'none', 'points', 'random', 'block']))
+    if kind == 'none':
+        return None
+    spec = {'kind': kind, 'seed': draw(st.integers(0, 2**31 - 1)),
+            'density': draw(st.sampled_from([0.05, 0.2, 0.5])), 'points': []}
+    if kind == 'points':
+        n = draw(st.integers(1, 5))
+        spec['points'] = [[draw(st.integers(0, ny - 1)),
+                           draw(st.integers(0, nx - 1))] for _ in range(n)]
+    if kind == 'block':
+        spec['points'] = [[draw(st.integers(0, ny - 1)),
+                           draw(st.integers(0, nx - 1))],
+                          [draw(st.integers(1, max(1, ny // 2))),
+                           draw(st.integers(1, max(1, nx // 2)))]]
+    return spec
+
+
+def build_mask(spec, ny, nx):
+    if spec is None:
+        return None
+    m = np.zeros((ny, nx), dtype=bool)
+    if spec['kind'] == 'random':
+        m = np.random.default_rng(spec['seed']).random((ny, nx)) < spec['density']
+    elif spec['kind'] == 'points':
+        for i, j in spec['points']:
+            m[i, j] = True
+    elif spec['kind'] == 'block':
+        (i, j), (h, w) = spec['points']
+        m[i:i + h, j:j + w] = True
+    return m
+
+
+@st.composite
+def positions_around(draw, ny, nx, reach, nmin=1, nmax=6):
+    """Positions from {inside, straddling each edge, corner, fully outside
+    on each side} for an aperture of half-size ``reach``."""
+    n = draw(st.integers(nmin, nmax))
+    out = []
+    for _ in range(n):
+        cls = draw(st.sampled_from(['inside', 'inside', 'left', 'right',
+                                    'bottom', 'top', 'corner', 'out_left',
+                                    'out_right', 'out_bottom', 'out_top',
+                                    'abut']))
+        fx = draw(st.floats(0, 1))
+        fy = draw(st.floats(0, 1))
+        x = fx * (nx - 1)
+        y = fy * (ny - 1)
+        d = draw(st.floats(0, 1)) * reach
+        if cls == 'left':
+            x = -0.5 + d * draw(st.sampled_from([-1, 1]))
+        elif cls == 'right':
+            x = nx - 0.5 + d * draw(st.sampled_from([-1, 1]))
+        elif cls == 'bottom':
+            y = -0.5 + d * draw(st.sampled_from([-1, 1]))
+        elif cls == 'top':
+            y = ny - 0.5 + d * draw(st.sampled_from([-1, 1]))
+        elif cls == 'corner':
+            x = draw(st.sampled_from([-0.5, nx - 0.5])) + d - reach / 2
+            y = draw(st.sampled_from([-0.5, ny - 0.5])) + d - reach / 2
+        elif cls == 'out_left':
+            x = -0.5 - reach - draw(st.floats(0, 3))
+        elif cls == 'out_right':
+            x = nx - 0.5 + reach + draw(st.floats(0, 3))
+        elif cls == 'out_bottom':
+            y = -0.5 - reach - draw(st.floats(0, 3))
+        elif cls == 'out_top':
+            y = ny - 0.5 + reach + draw(st.floats(0, 3))
+        elif cls == 'abut':
+            # the aperture box just abuts / just misses an edge
+            k = draw(st.integers(0, 3))
+            e = draw(st.sampled_from([0.0, 0.3, 0.7, 1.0]))
+            if k == 0:
+                x = -0.5 - reach - e
+            elif k == 1:
+                x = nx - 0.5 + reach + e
+            elif k == 2:
+                y = -0.5 - reach - e
+            else:
+                y = ny - 0.5 + reach + e
+        out.append([x, y])
+    return out
